@@ -48,7 +48,7 @@ pub fn run_random<W: Write, W2: Write>(
         let mut rng = Rng(seed.wrapping_mul(1_000_003).wrapping_add(k));
         let id = format!("{}-{}-{}", driver, seed, k);
         if driver == "exactfund" {
-            let (mut a, mut b) = drive_exactfund(&id, &mut rng);
+            let (mut a, mut b) = if k % 4 == 3 { drive_exactprepaid(&id, &mut rng) } else { drive_exactfund(&id, &mut rng) };
             total_ev += a.out.len() + b.out.len();
             if let Some(so) = scn_out.as_mut() {
                 writeln!(so, "{}", a.scenario_json()).unwrap();
@@ -56,6 +56,15 @@ pub fn run_random<W: Write, W2: Write>(
             }
             a.flush(out);
             b.flush(out);
+            continue;
+        }
+        if driver == "liqwin" {
+            let mut a = drive_liqwin(&id, &mut rng);
+            total_ev += a.out.len();
+            if let Some(so) = scn_out.as_mut() {
+                writeln!(so, "{}", a.scenario_json()).unwrap();
+            }
+            a.flush(out);
             continue;
         }
         let mut r = match driver {
@@ -399,6 +408,147 @@ fn drive_engine(id: &str, flavour: &str, rng: &mut Rng, maxops: u64) -> Runner {
         }
     }
     r
+}
+
+/// Steers a victim's margin ratio into a chosen spot of the window (liquidation fee, maintenance)
+/// -- the region in which `Liquidate` takes the partial path legitimately -- by bisection over one
+/// scenario parameter (the size of the trade pushing the price, or the oracle price that sets the
+/// funding charged on a position in profit); each probe is a fresh run of the real contracts.
+/// The final run is the recorded one: liquidation, then a second liquidation and a close.
+fn drive_liqwin(id: &str, rng: &mut Rng) -> Runner {
+    let native = rng.chance(25);
+    let side = if rng.chance(50) { "sell" } else { "buy" };
+    let other = if side == "sell" { "buy" } else { "sell" };
+    let plr = *rng.pick(&[25i64, 50, 75, 100, 100]);
+    let liqfee = *rng.pick(&[1i64, 2, 3]);
+    let mmr = *rng.pick(&[6i64, 8, 10]);
+    let lev = *rng.pick(&[200i64, 500, 1000]);
+    let lowprice = rng.chance(25);
+    let funding = rng.chance(35);
+    let settle = if rng.chance(70) { 1000i64 } else { *rng.pick(&[15i64, 120, 400]) };
+    // where inside (fee, maintenance) the ratio should land: just above the fee, the middle, just below maintenance
+    let target = match rng.below(4) {
+        0 => liqfee + 1,
+        1 => mmr - 1,
+        2 => mmr,
+        _ => (liqfee + mmr) / 2,
+    };
+    let m1 = if lowprice { 100i64 } else { 2000 };
+    let f = |m: i64| if native { m } else { 0 };
+    let pool = if lowprice { json!({"x": 10000, "y": 100000, "period": if funding {86400} else {3600}}) } else { json!({"period": if funding {86400} else {3600}}) };
+    let dep = json!({"collateral": if native {"native"} else {"cw20"}, "dec": 2, "feed": "mock", "trader_bal": 5_000_000, "ifund_bal": 5_000_000,
+                     "engine": {"plr": plr, "liqfee": liqfee, "mmr": mmr, "imr": mmr}, "vamms": [pool]});
+    let build = |param: i64| -> Vec<Value> {
+        let mut ops: Vec<Value> = vec![json!({"k": "block", "dh": 1, "dt": 901})];
+        ops.push(json!({"k": "tx", "c": "engine", "m": "open_position", "s": "tr1", "a": {"vamm": "vamm1", "side": side, "margin": m1, "leverage": lev, "limit": 0}, "funds": f(m1)}));
+        ops.push(json!({"k": "block", "dh": 1, "dt": 901}));
+        if funding {
+            // the price moves in the victim's favour, then a day of funding against it: param = oracle offset
+            let fav = m1 * lev / 100 / 2;
+            ops.push(json!({"k": "tx", "c": "engine", "m": "open_position", "s": "tr2", "a": {"vamm": "vamm1", "side": side, "margin": fav, "leverage": 100, "limit": 0}, "funds": f(fav)}));
+            ops.push(json!({"k": "block", "dh": 1, "dt": 1000}));
+            ops.push(json!({"k": "oracle_rel", "bp": if side == "buy" { -param } else { param }}));
+            ops.push(json!({"k": "block", "dh": 1, "dt": 86400}));
+            ops.push(json!({"k": "tx", "c": "engine", "m": "pay_funding", "s": "stranger", "a": {"vamm": "vamm1"}}));
+            ops.push(json!({"k": "oracle_rel", "bp": 0}));
+        } else {
+            ops.push(json!({"k": "tx", "c": "engine", "m": "open_position", "s": "tr2", "a": {"vamm": "vamm1", "side": other, "margin": param, "leverage": 100, "limit": 0}, "funds": f(param)}));
+            ops.push(json!({"k": "block", "dh": 1, "dt": settle}));
+            ops.push(json!({"k": "oracle_rel", "bp": 0}));
+        }
+        ops
+    };
+    let run = |param: i64, name: &str| -> (Runner, Option<i64>) {
+        let mut r = Runner::new(name, &dep);
+        let mut all_ok = true;
+        for o in build(param).iter() {
+            if o["k"] == "oracle_rel" {
+                // oracle := spot x (1 + bp / 10000)
+                let post = r.out.last().unwrap()["post"].clone();
+                let st = &post["vamm"]["vamm1"]["st"];
+                let spot = num(&st["x"]) * 100 / num(&st["y"]).max(1);
+                let price = (spot * (10000 + num(&o["bp"])) / 10000).max(1);
+                let now = num(&post["blk"]["t"]);
+                r.op(&json!({"k": "tx", "c": "feed", "m": "append_price", "s": "owner", "a": {"key": "ETH", "price": price, "t": now}}));
+            } else {
+                let (ok, _) = r.op(o);
+                all_ok = all_ok && (ok || o["k"] != "tx");
+            }
+        }
+        let (ok, _) = r.op(&json!({"k": "query", "c": "engine", "q": "margin_ratio", "a": {"vamm": "vamm1", "trader": "tr1"}}));
+        let val = if ok && all_ok { Some(num(&r.out.last().unwrap()["res"]["val"])) } else { None };
+        (r, val)
+    };
+    // the ratio falls as the parameter grows: bisection for the smallest parameter with ratio <= target
+    let (mut lo, mut hi) = if funding { (0i64, 9000i64) } else { (1i64, if lowprice { 40000 } else { 400000 }) };
+    for _ in 0..22 {
+        if hi - lo <= 1 {
+            break;
+        }
+        let mid = (lo + hi) / 2;
+        let (_, v) = run(mid, "probe");
+        match v {
+            Some(x) if x > target => lo = mid,
+            Some(_) => hi = mid,
+            None => hi = mid,
+        }
+    }
+    let (mut r, _) = run(hi, id);
+    r.op(&json!({"k": "tx", "c": "engine", "m": "liquidate", "s": "liq", "a": {"vamm": "vamm1", "trader": "tr1", "limit": 0}}));
+    r.op(&json!({"k": "block", "dh": 1, "dt": 15}));
+    r.op(&json!({"k": "tx", "c": "engine", "m": "liquidate", "s": "tr3", "a": {"vamm": "vamm1", "trader": "tr1", "limit": 0}}));
+    r.op(&json!({"k": "tx", "c": "engine", "m": "close_position", "s": "tr1", "a": {"vamm": "vamm1", "limit": 0}}));
+    r
+}
+
+/// The engine's prepaid-bad-debt counter equals *exactly* the bad debt of the next liquidation:
+/// three traders on one side, one deposits (which only raises the vault), the first closes in profit
+/// against a short vault (the fund prepays the shortfall), the third is liquidated later.  The first
+/// run measures the counter P and the liquidation's bad debt B; the deposit of the second run is
+/// shifted by P - B (and by one unit either side of it).
+fn drive_exactprepaid(id: &str, rng: &mut Rng) -> (Runner, Runner) {
+    let native = rng.chance(30);
+    let side = if rng.chance(50) { "sell" } else { "buy" };
+    let m = *rng.pick(&[1500i64, 2000, 2500]);
+    let f = |x: i64| if native { x } else { 0 };
+    let dep = json!({"collateral": if native {"native"} else {"cw20"}, "dec": 2, "engine": {"plr": 0}, "ifund_bal": 500_000});
+    let build = |d: i64| -> Vec<Value> {
+        let mut ops: Vec<Value> = vec![json!({"k": "block", "dh": 1, "dt": 15})];
+        for t in ["tr1", "tr2", "tr3"] {
+            ops.push(json!({"k": "tx", "c": "engine", "m": "open_position", "s": t, "a": {"vamm": "vamm1", "side": side, "margin": m, "leverage": 1000, "limit": 0}, "funds": f(m)}));
+        }
+        ops.push(json!({"k": "tx", "c": "engine", "m": "deposit_margin", "s": "tr2", "a": {"vamm": "vamm1", "amount": d}, "funds": f(d)}));
+        ops.push(json!({"k": "tx", "c": "engine", "m": "close_position", "s": "tr1", "a": {"vamm": "vamm1", "limit": 0}}));
+        ops.push(json!({"k": "block", "dh": 1, "dt": 1000}));
+        ops
+    };
+    let liq_op = json!({"k": "tx", "c": "engine", "m": "liquidate", "s": "liq", "a": {"vamm": "vamm1", "trader": "tr3", "limit": 0}});
+    let d0 = m * 3;
+    let mut a = Runner::new(&format!("{}-measure", id), &dep);
+    for o in build(d0).iter() {
+        a.op(o);
+    }
+    let p0 = num(&a.out.last().unwrap()["post"]["eng"]["st"]["bad_debt"]);
+    a.op(&liq_op);
+    let mut delta: i64 = 0;
+    if let Some(xs) = a.out.last().unwrap()["xfers"].as_array() {
+        for x in xs {
+            if x["ok"].as_bool().unwrap_or(false) && x["from"].as_str() == Some("ifund") {
+                delta += x["amt"].as_i64().unwrap_or(0);
+            }
+        }
+    }
+    // the first fund withdrawal of liquidate_reply is bad debt - prepaid; a later one covers the liquidator's fee
+    let first = a.out.last().unwrap()["xfers"].as_array().and_then(|xs| xs.iter().find(|x| x["from"].as_str() == Some("ifund")).map(|x| x["amt"].as_i64().unwrap_or(0))).unwrap_or(delta);
+    let bad = p0 + first;
+    let shift = p0 - bad + rng.range(-1, 1);
+    let d1 = (d0 + shift).max(1);
+    let mut b = Runner::new(&format!("{}-equal", id), &dep);
+    for o in build(d1).iter() {
+        b.op(o);
+    }
+    b.op(&liq_op);
+    (a, b)
 }
 
 /// The insurance fund holds *exactly* what the final liquidation needs: the scenario is run once
